@@ -641,6 +641,8 @@ def pattern_method(ip, pattern, name, args, kwargs, node):
         return sym_search(ip, pattern, subject, name, pos, endpos, node)
     if not has_sym(args) and not has_sym(kwargs):
         return ip.native(getattr(pattern, name), args, kwargs)
+    if name == 'sub':
+        return re_sub(ip, pattern, args[0], args[1], kwargs, node)
     raise Unsupported(f"pattern.{name} on symbolic text needs an abstraction contract")
 
 
@@ -670,9 +672,14 @@ def re_sub(ip, pattern, repl, subject, kwargs, node):
     and literal patterns."""
     comp = pattern if isinstance(pattern, _re.Pattern) else _re.compile(pattern, kwargs.get('flags', 0))
     pat = Pat.of(comp)
-    if isinstance(repl, (SV,)) or not isinstance(repl, str):
-        raise Unsupported("re.sub with symbolic/callable replacement")
+    if isinstance(repl, (SV,)):
+        raise Unsupported("re.sub with symbolic replacement")
     s = subject.t
+    if not isinstance(repl, str):
+        name = getattr(repl, 'qualname', None) or getattr(repl, '__qualname__', 'callable')
+        f = z3.Function('re_subf_%d_%d' % (abs(hash(pat.src)) % 10**8, abs(hash(name)) % 10**6), STR, STR)
+        ip.ctx.assumed.append('re.sub with a function replacement abstracted as a deterministic function')
+        return SV(f(s))
     items = list(pat.tree)
     # literal pattern -> str.replace
     if all(op is sre_c.LITERAL for op, av in items) and not pat.icase:
@@ -703,7 +710,10 @@ def re_sub(ip, pattern, repl, subject, kwargs, node):
             ip.ctx.assume(z3.Length(r) <= z3.Length(s))
             ip.hooks.setdefault(('re_del',), []).append((pat, s, r))
             return SV(r)
-    raise Unsupported(f"re.sub({pat.src!r}) on symbolic text")
+    # anything else: an uninterpreted function of the subject (deterministic per pattern and replacement; nothing else known)
+    f = z3.Function('re_sub_%d_%d' % (abs(hash(pat.src)) % 10**8, abs(hash(repr(repl))) % 10**6), STR, STR)
+    ip.ctx.assumed.append('re.sub abstracted as a deterministic function: ' + pat.src[:40].replace('\n', ' '))
+    return SV(f(s))
 
 
 def _flat_parts(t):
